@@ -134,14 +134,25 @@ def boundary_call_model(ctx, env):
     thr = env.get('threshold', 0)
     if x.ndim != 2:
         raise S.Unsupported('boundary model: ndim')
-    ne = nonempty(ctx, x, thr)
+    if getattr(ctx, 'bbox_quantified', True):
+        ne = nonempty(ctx, x, thr)
+    else:
+        cache = ctx.__dict__.setdefault('_bbox_ne', {})
+        ne = cache.setdefault((x.cell.id, str(thr)), ctx.fresh_bool('mask_has_support'))
     if not ctx.branch(ne):
         raise Raised('IndexError', 'no sample above threshold')
     key = ('bbox', x.cell.id, len(x.cell.writes), str(thr))
     cache = ctx.__dict__.setdefault('_bbox_cache', {})
     if key not in cache:
         res = tuple(ctx.fresh_int('bbox.' + v) for v in ('rmin', 'rmax', 'cmin', 'cmax'))
-        ctx.assume(bbox_spec(ctx, x.snapshot(), thr, res), 'contract:lentil.util.boundary')
+        if getattr(ctx, 'bbox_quantified', True):
+            ctx.assume(bbox_spec(ctx, x.snapshot(), thr, res), 'contract:lentil.util.boundary')
+        else:
+            # quantifier-free consequence of the contract: a non-empty box inside the array
+            n, m = x.shape
+            ctx.assume(z3.And(res[0] >= 0, res[0] <= res[1], res[1] < S.z(n),
+                              res[2] >= 0, res[2] <= res[3], res[3] < S.z(m)),
+                       'contract:lentil.util.boundary (box inside the array)')
         cache[key] = res
     return cache[key]
 
